@@ -229,4 +229,57 @@ theorem serveFrom_transcript (ka : Bool) : ∀ (segs : List Seg) (pos i : Nat) (
             · rw [hb]; simp [blocks]
           · exact ⟨1, [], by simp, by simp [List.range'_succ], by simp [blocks], Or.inl rfl⟩
 
+/-! ## Segmentation independence of byte-at-a-time readers -/
+
+/-- next byte of a source that arrives in segments (one segment = what one Read on the connection
+    returns); empty segments are skipped -/
+def nextByte : List Bytes → Option (UInt8 × List Bytes)
+  | [] => none
+  | [] :: t => nextByte t
+  | (b :: s) :: t => some (b, s :: t)
+
+/-- a reader that pulls one byte at a time: `step` either goes on in a new state or stops with a result;
+    returns the result and the unread rest of the source -/
+def runSeg {σ ρ : Type} (step : σ → UInt8 → σ ⊕ ρ) (eof : σ → ρ) : Nat → σ → List Bytes → ρ × List Bytes
+  | 0, s, segs => (eof s, segs)
+  | fuel + 1, s, segs =>
+    match nextByte segs with
+    | none => (eof s, [])
+    | some (b, rest) =>
+      match step s b with
+      | .inl s' => runSeg step eof fuel s' rest
+      | .inr r => (r, rest)
+
+theorem nextByte_flatten : ∀ (segs : List Bytes),
+    (nextByte segs = none ∧ segs.flatten = []) ∨
+    (∃ b rest, nextByte segs = some (b, rest) ∧ segs.flatten = b :: rest.flatten) := by
+  intro segs
+  induction segs with
+  | nil => exact Or.inl ⟨rfl, rfl⟩
+  | cons h t ih =>
+    cases h with
+    | nil => simpa [nextByte] using ih
+    | cons b s => exact Or.inr ⟨b, s :: t, rfl, by simp⟩
+
+theorem runSeg_flatten {σ ρ : Type} (step : σ → UInt8 → σ ⊕ ρ) (eof : σ → ρ) :
+    ∀ (fuel : Nat) (s : σ) (segs : List Bytes),
+      ((runSeg step eof fuel s segs).1, (runSeg step eof fuel s segs).2.flatten) =
+      ((runSeg step eof fuel s [segs.flatten]).1, (runSeg step eof fuel s [segs.flatten]).2.flatten) := by
+  intro fuel
+  induction fuel with
+  | zero => intro s segs; simp [runSeg]
+  | succ f ih =>
+    intro s segs
+    rcases nextByte_flatten segs with ⟨hn, hf⟩ | ⟨b, rest, hn, hf⟩
+    · simp [runSeg, hn, hf, nextByte]
+    · have h1 : nextByte [segs.flatten] = some (b, [rest.flatten]) := by rw [hf]; rfl
+      simp only [runSeg, hn, h1]
+      cases step s b with
+      | inl s' => simpa using ih s' rest
+      | inr r => simp
+
+/-- instance: a line reader (bytes up to LF, a CR before it dropped) -/
+def lineStep (acc : Bytes) (b : UInt8) : Bytes ⊕ Bytes :=
+  if b == 10 then .inr (match acc with | 13 :: t => t.reverse | _ => acc.reverse) else .inl (b :: acc)
+
 end BfeVerif.C28
